@@ -39,6 +39,13 @@ pub enum Op {
     },
     /// every (start, end, order) triple over the live keys, their neighbours, empty and None
     Sweep,
+    /// `n` writes (sets and removes over a pool of `keys` keys, derived from `seed`) without
+    /// intermediate probes: long per-layer histories (a replay log of hundreds of entries)
+    Burst {
+        n: u16,
+        keys: u8,
+        seed: u32,
+    },
     Push {
         mode: Mode,
         body: Vec<Op>,
@@ -127,7 +134,7 @@ fn gen_ops(g: &mut Gen, depth: usize, max_depth: usize, budget: &mut usize, know
         }
         *budget -= 1;
         let push_w = if depth < max_depth { 5 } else { 0 };
-        let op = match g.weighted(&[8, 5, 3, 7, push_w, sweep_w]) {
+        let op = match g.weighted(&[8, 5, 3, 7, push_w, sweep_w, 1]) {
             0 => {
                 // set: mostly on known keys so that overwrites/delete-then-set happen
                 let k = if !known.is_empty() && g.chance(2, 3) {
@@ -169,6 +176,14 @@ fn gen_ops(g: &mut Gen, depth: usize, max_depth: usize, budget: &mut usize, know
                 };
                 let body = gen_ops(g, depth + 1, max_depth, budget, known, sweep_w);
                 Op::Push { mode, body }
+            }
+            6 => {
+                let n = match g.below(3) {
+                    0 => g.range(2, 40),
+                    1 => g.range(40, 130),
+                    _ => g.range(130, 600),
+                } as u16;
+                Op::Burst { n, keys: g.range(1, 12) as u8, seed: g.range(0, u32::MAX as u64) as u32 }
             }
             _ => {
                 // exhaustive bound sweeps are expensive: at most two per program
@@ -344,6 +359,36 @@ impl Run<'_> {
                 Op::Sweep => {
                     self.sweep(store, model, depth)?;
                 }
+                Op::Burst { n, keys, seed } => {
+                    // a deterministic function of the case (no RNG): xorshift over the seed
+                    let mut x = (*seed as u64) | 1 << 33;
+                    let mut next = || {
+                        x ^= x << 13;
+                        x ^= x >> 7;
+                        x ^= x << 17;
+                        x
+                    };
+                    let pool = (*keys).max(1) as u64;
+                    for i in 0..*n {
+                        let r = next();
+                        let k = vec![0x61, (r % pool) as u8];
+                        if (r >> 8) % 3 == 0 {
+                            store.remove(&k);
+                            model.remove(&k);
+                            del_here.insert(k.clone());
+                            set_here.remove(&k);
+                        } else {
+                            let v = vec![1 + ((r >> 16) % 250) as u8, (i % 251) as u8];
+                            store.set(&k, &v);
+                            model.insert(k.clone(), v);
+                            set_here.insert(k.clone());
+                            del_here.remove(&k);
+                        }
+                    }
+                    self.cx.label(if *n >= 64 { "burst:>=64-writes" } else { "burst:<64-writes" });
+                    check_full(store, model, "after a burst of writes", "C06:scan-mismatch")?;
+                    check_lowers(lowers)?;
+                }
                 Op::Push { mode, body } => {
                     self.cx.label(match mode {
                         Mode::Commit => "push:commit",
@@ -504,7 +549,7 @@ impl Check for KvCheck {
         Spec {
             id: "C06",
             level: "exploration",
-            rule: "generated: base content (0-12 entries over keys built from {00,01,61,FF}, length 0-3, plus long/random keys) and a nested program of set/remove/get/range/sweep/push(commit|discard|transactional Ok|Err) ops, compared after every op with a stack of BTreeMaps; a case is non-trivial when it issues a range at depth>=1 whose interval contains an overlay-set key, an overlay-deleted base key and an untouched base key and returns at least one entry; distinct = distinct serialised case",
+            rule: "generated: base content (0-12 entries over keys built from {00,01,61,FF}, length 0-3, plus long/random keys) and a nested program of set/remove/get/range/sweep/burst(2-600 unprobed writes over 1-12 keys)/push(commit|discard|transactional Ok|Err) ops, compared after every op with a stack of BTreeMaps; a case is non-trivial when it issues a range at depth>=1 whose interval contains an overlay-set key, an overlay-deleted base key and an untouched base key and returns at least one entry; distinct = distinct serialised case",
             assumptions: vec![
                 "values are non-empty (MemoryStorage::set documents a panic for empty values)",
                 "MockStorage (cosmwasm-std MemoryStorage) is a correct ordered map (bottom layer)",
